@@ -8,7 +8,7 @@ From Rigo Require Import Spec SpecProps.
 Local Open Scope Z_scope.
 
 Local Opaque two256 two255 two64 two63.
-Arguments Z.pow : simpl never.
+Local Arguments Z.pow : simpl never.
 
 (* ================================================================== ranges *)
 Lemma two256_pos : 0 < two256.            Proof. Local Transparent two256. unfold two256. lia. Qed.
@@ -1438,3 +1438,16 @@ Proof.
   split; [zclosed|]. split; [apply bal_range_decide; vm_compute; reflexivity|]. split; [zclosed|].
   split; vm_compute; reflexivity.
 Qed.
+
+(* ================================================================== assumptions of the main results *)
+Print Assumptions deliver_ok_admission.
+Print Assumptions deliver_ok_admission_literal_refuted.
+Print Assumptions deliver_native_balances.
+Print Assumptions deliver_transfer_cost.
+Print Assumptions deliver_feesum.
+Print Assumptions end_block_balances.
+Print Assumptions end_block_proposer_credit.
+Print Assumptions deliver_evm_gas.
+Print Assumptions block_feesum.
+Print Assumptions C16_fee_sum_dropped_refuted.
+Print Assumptions transfer_wrap_refuted.
